@@ -59,6 +59,38 @@ func (l *c10Loop) run(buf []byte, n int) (*Message, error) {
 	}
 }
 
+// runSeq queues all datagrams back-to-back (each in its own recycled-looking
+// buffer taken from and returned to the transport's pool by the loop), waits
+// for the sentinel and only then looks at what was delivered: a message must
+// still be intact after later datagrams have been decoded.
+func (l *c10Loop) runSeq(datagrams [][]byte) ([]*Message, error) {
+	var got []*Message
+	done := make(chan struct{})
+	h := func(m *Message) {
+		if id, _ := m.GetCallID(); id == "verif-sentinel" {
+			close(done)
+			return
+		}
+		got = append(got, m)
+	}
+	go func() {
+		for _, d := range datagrams {
+			buf := l.u.msgBufPool.Alloc()
+			copy(buf, d)
+			l.u.msgParseChannel <- SizedByteArray{b: buf, n: len(d), msgHandler: h}
+		}
+		sb := l.u.msgBufPool.Alloc()
+		copy(sb, c10Sentinel)
+		l.u.msgParseChannel <- SizedByteArray{b: sb, n: len(c10Sentinel), msgHandler: h}
+	}()
+	select {
+	case <-done:
+		return got, nil
+	case <-time.After(20 * time.Second):
+		return nil, fmt.Errorf("parse loop did not deliver the sentinel within 20 s (wedged or dead)")
+	}
+}
+
 func c10Clean(d []byte) *Message {
 	n := len(d)
 	m, err := ParseMessage(bufio.NewReaderSize(bytes.NewReader(append([]byte(nil), d...)), n))
@@ -69,9 +101,9 @@ func c10Clean(d []byte) *Message {
 }
 
 func TestC10(t *testing.T) {
-	V.Rule("unit: a datagram d (valid generated message; or cut at an offset - all offsets for messages < 600 B; or Content-Length rewritten to len+-delta / 0 / huge) is copied to the front of a dirty 64 KiB buffer whose remainder holds the worst-case stale bytes (the rest of the uncut message, so that stale bytes would complete d; or random; or 0xFF) and handed as (buffer, n) to the product's parse loop; differential against a clean decode of exactly d[:n], absolute against the generator (valid => equal message; over-declared / header-truncated => nothing). non-trivial = truncated or over-declared datagram whose stale tail would complete it; distinct by (datagram, mutation, dirt)")
+	V.Rule("unit: a datagram d (valid generated message; or cut at an offset - all offsets for messages < 600 B; or Content-Length rewritten to len+-delta / 0 / huge) is copied to the front of a dirty 64 KiB buffer whose remainder holds the worst-case stale bytes (the rest of the uncut message, so that stale bytes would complete d; or random; or 0xFF) and handed as (buffer, n) to the product's parse loop; differential against a clean decode of exactly d[:n], absolute against the generator (valid => equal message; over-declared / header-truncated => nothing). plus sequences of 2-14 datagrams (valid, cut, over/under-declared, bodies of mixed sizes) queued back-to-back through the pool and judged only after the whole sequence has been decoded. non-trivial = truncated or over-declared datagram whose stale tail would complete it, or any multi-datagram sequence; distinct by (datagram, mutation, dirt)")
 	V.Assume("FIFO single parse loop: a sentinel datagram queued behind the case proves the loop is done with it")
-	V.Require("cut in headers", "cut in body", "over-declared", "under-declared", "valid intact", "stale tail completes the message")
+	V.Require("sequence of datagrams judged after all were decoded", "cut in headers", "cut in body", "over-declared", "under-declared", "valid intact", "stale tail completes the message")
 	loop := newC10Loop()
 
 	eval := func(rt *rapid.T, m *AMsg, full []byte, d []byte, dirtKind int, expectValid, expectNothing bool, label string) {
@@ -212,6 +244,82 @@ func TestC10(t *testing.T) {
 				exp.CLOverride = strconv.Itoa(decl)
 				eval(rt, exp, d, d, dirt, true, false, fmt.Sprintf("Content-Length %d declared, %d body bytes carried", decl, len(m.Body)))
 			}
+		}
+	})
+
+	rcheck(t, "sequences", V.N(400, 4000), func(rt *rapid.T) {
+		k := rapid.IntRange(2, 14).Draw(rt, "datagrams")
+		var dgs [][]byte
+		var exp []*AMsg // nil = must deliver nothing
+		desc := []string{}
+		for i := 0; i < k; i++ {
+			o := anyOpts{MaxExt: 4, MaxLong: 0, MaxBody: 3000}
+			if rapid.IntRange(0, 5).Draw(rt, "big") == 0 {
+				o = anyOpts{MaxExt: 6, MaxLong: 9000, MaxBody: 40000}
+			}
+			m := gAnyMsg(rt, fmt.Sprintf("m%d", i), o)
+			if len(m.Body) == 0 && rapid.Bool().Draw(rt, "forcebody") {
+				m.Body = []byte(gFromAlphabet(rt, "body", tokAlpha+"\r\n\x00", 1, 200))
+			}
+			fitUDP(m, 60000)
+			full := m.Bytes()
+			switch rapid.IntRange(0, 6).Draw(rt, "mutation") {
+			case 0: // cut
+				off := rapid.IntRange(1, len(full)-1).Draw(rt, "cut")
+				dgs = append(dgs, full[:off])
+				exp = append(exp, nil)
+				desc = append(desc, fmt.Sprintf("cut@%d/%d", off, len(full)))
+			case 1: // over-declared
+				mm := m.Clone()
+				mm.CLOverride = strconv.Itoa(len(m.Body) + rapid.IntRange(1, 500).Draw(rt, "over"))
+				dgs = append(dgs, mm.Bytes())
+				exp = append(exp, nil)
+				desc = append(desc, "over-declared "+mm.CLOverride)
+			case 2: // under-declared
+				if len(m.Body) == 0 {
+					dgs = append(dgs, full)
+					exp = append(exp, m)
+					desc = append(desc, fmt.Sprintf("valid %dB", len(full)))
+					break
+				}
+				mm := m.Clone()
+				decl := rapid.IntRange(0, len(m.Body)-1).Draw(rt, "under")
+				mm.CLOverride = strconv.Itoa(decl)
+				dgs = append(dgs, mm.Bytes())
+				e := mm.Clone()
+				e.Body = e.Body[:decl]
+				exp = append(exp, e)
+				desc = append(desc, fmt.Sprintf("under-declared %d of %d", decl, len(m.Body)))
+				V.Class("under-declared")
+			default:
+				dgs = append(dgs, full)
+				exp = append(exp, m)
+				desc = append(desc, fmt.Sprintf("valid %dB body %dB", len(full), len(m.Body)))
+			}
+		}
+		V.Case(map[string]any{"sequence": desc})
+		V.Class("sequence of datagrams judged after all were decoded")
+		V.NonTrivial(fmt.Sprintf("seq|%v|%x", desc, hash64(string(dgs[0]))))
+		V.SampleEvery(100, func() any { return desc })
+		got, err := loop.runSeq(dgs)
+		if err != nil {
+			failf(rt, "%v", err)
+		}
+		gi := 0
+		for i, e := range exp {
+			if e == nil {
+				continue
+			}
+			if gi >= len(got) {
+				failf(rt, "datagram %d (%s) of the sequence %v was not delivered (%d messages delivered)", i, desc[i], desc, len(got))
+			}
+			if diff := prodEqual(e, got[gi]); diff != "" {
+				failf(rt, "datagram %d (%s) of the sequence %v, looked at after the whole sequence had been decoded: %s", i, desc[i], desc, diff)
+			}
+			gi++
+		}
+		if gi != len(got) {
+			failf(rt, "sequence %v: %d messages delivered, %d datagrams were complete", desc, len(got), gi)
 		}
 	})
 }
